@@ -523,7 +523,7 @@ func execWatch(s *jetSet, c Call, nestedAt map[int]bool) (Outcome, []io.Writer) 
 	var writers []io.Writer
 	writers = append(writers, nil)
 	w := &SimWriter{FailAt: c.FaultWrite}
-	p := &Probes{W: w, FailAt: c.FaultProbe, FailAt2: c.FaultProbe2, Tag: "x", Tokens: c.Tokens}
+	p := &Probes{W: w, FailAt: c.FaultProbe, FailAt2: c.FaultProbe2, Tag: "x", Tokens: c.Tokens, Kind: c.FaultKind}
 	o := Outcome{Probes: p, W: w}
 	var t *jet.Template
 	var err error
